@@ -245,6 +245,10 @@ def gen_numeric_edit(rng, spec, kinds=None):
         new = {"m": old["m"] * rng.choice([0.5, 0.9]), "u": old["u"]}
     elif p == "data_stored":
         new = {"m": abs(old["m"]) * factor + 0.5, "u": old["u"]}
+    elif rng.random() < 0.08 and p in ("data_transferred", "power", "carbon_footprint_fabrication", "bandwidth_energy_intensity", "average_carbon_intensity") \
+            and len(specgen.ALT_UNITS.get(fam, [])) > 1:
+        # the same number in another unit (150 MB -> 150 kB): an edit like any other
+        new = {"m": old["m"], "u": rng.choice([a for a in specgen.ALT_UNITS[fam] if a != old["u"]])}
     else:
         alt = rng.choice(specgen.ALT_UNITS[fam]) if rng.random() < 0.3 and p not in ("compute_needed",) else old["u"]
         so, _ = realsys.unit_info(old["u"])
